@@ -531,7 +531,7 @@ func phconcFamily(env *Env) error {
 			for k := range l.Ev {
 				e := &l.Ev[k]
 				switch e.Pt {
-				case "ph.f.send", "ph.w.recv", "ph.w.result", "ph.w.fail", "ph.w.stop":
+				case "ph.f.send", "ph.w.recv", "ph.w.result", "ph.w.sent", "ph.w.fail", "ph.w.stop":
 					e.A = byLen[e.A]
 				}
 				if e.Pt == "ph.w.fail" { // the sequences whose alignment failed in this run (any read may: "unless an alignment error is reported")
